@@ -43,7 +43,7 @@ deriving Repr, DecidableEq
 /-- how a kernel without the syscall — or an outer filter / LSM that denies it, as container runtimes
     do — answers `seccomp(2)`: the errno differs, the effect (nothing happens) does not -/
 inductive Refusal where
-  | enosys | eperm | eacces | enomem | eagain | esrch | ebusy
+  | enosys | eperm | eacces | enomem | eagain | esrch | ebusy | eintr
 deriving Repr, DecidableEq
 
 structure World where
@@ -75,6 +75,7 @@ def Refusal.errno : Refusal → Nat
   | .eagain => 11
   | .esrch => 3
   | .ebusy => 16
+  | .eintr => 4      -- interrupted: what a retry loop would be written for
 
 def PR_SET_NO_NEW_PRIVS : Nat := 38
 def SECCOMP_SET_MODE_STRICT : Nat := 0
